@@ -2235,6 +2235,20 @@ func (e *nenum) stmt(fr *nframe, s ast.Stmt) {
 		}
 		e.cur = append(thenArm, e.cur...)
 	case *ast.RangeStmt:
+		// a list computed by a package helper is computed first (`for _, n := range sortedNames(m)` reads like
+		// `ns := sortedNames(m); for _, n := range ns`)
+		if ce, ok := stripParens(x.X).(*ast.CallExpr); ok {
+			if d := e.helperOf(fr, ce); d != nil && d.Type.Results != nil && len(d.Type.Results.List) == 1 && len(d.Type.Results.List[0].Names) <= 1 && len(d.Body.List) >= 2 {
+				*e.counter++
+				name := fmt.Sprintf("hoisted%d", *e.counter)
+				id := ast.NewIdent(name)
+				fr.multi[name] = fmt.Sprintf("$%d", *e.counter)
+				e.inline(fr, e.hoistArgs(fr, ce), d, []ast.Expr{id}, token.ASSIGN, false)
+				cp := *x
+				cp.X = id
+				x = &cp
+			}
+		}
 		e.calls(fr, x.X)
 		e.depth++
 		saved := map[string]string{}
